@@ -18,7 +18,7 @@ META = common.meta(
 
 def tasks(tier, seed):
     out = []
-    n = 60 if tier == 'quick' else 400
+    n = 60 if tier == 'quick' else common.thorough(400)
     for k in range(n):
         out.append(('vt.props.c15', 't3_case', {'seed': seed, 'k': k, 'backend': 'T3', 'm': 1 + k % 5, 'sig': 'm%d' % (1 + k % 5)}))
     out += common.extra_tasks(PID, tier, seed)
